@@ -26,6 +26,7 @@ import (
 	"strings"
 	"sync"
 	"sync/atomic"
+	"time"
 
 	"cvssmc/internal/dump"
 	"cvssmc/internal/ev"
@@ -640,11 +641,21 @@ func histShard(r *ev.Run, thorough bool, shard, shards int) {
 	var states, transitions, globalsChanged, dumpChanged int64
 	outcomes := map[string]bool{}
 	pristine := histPristine
+	// caps: on the pinned tree a start object has a few dozen states.  A change that makes every
+	// operation alter package-level state (an allocator, a counter) makes every history a new state;
+	// the search then stops expanding at the cap and the run says so (exhaustive=false).
+	stateCap, budget := int64(3000), 4*time.Minute
+	if thorough {
+		stateCap, budget = 40000, 40*time.Minute
+	}
+	t0 := time.Now()
+	var capped int64
 	for si := range starts {
 		if si%shards != shard {
 			continue
 		}
 		st := &starts[si]
+		startStates := states
 		seen := map[[32]byte]bool{}
 		o0 := st.make()
 		seen[histKey(o0)] = true // the state key is taken before anything is queried
@@ -658,6 +669,10 @@ func histShard(r *ev.Run, thorough bool, shard, shards int) {
 		for d := 0; d < depth && len(frontier) > 0; d++ {
 			var next []histPath
 			for _, p := range frontier {
+				if states-startStates > stateCap || time.Since(t0) > budget || r.Violations() > 200 {
+					capped++
+					break
+				}
 				for oi := range ops {
 					op := &ops[oi]
 					if !op.ok(st) || (op.kind == 'm' && p.muts >= maxMut) {
@@ -766,6 +781,7 @@ func histShard(r *ev.Run, thorough bool, shard, shards int) {
 	r.Add("traces_validated_against_impl", transitions)
 	r.Add("evaluations", transitions)
 	r.Add("distinct_results_observed_summed_over_workers", int64(len(outcomes)))
+	r.Add("history_search_caps_hit", capped)
 	r.Add("workers_that_saw_package_level_state_change", globalsChanged)
 	r.Add("queries_that_changed_private_object_state", dumpChanged)
 	if shard == 0 {
@@ -861,7 +877,7 @@ func init() {
 		r.Phase("neighbour processing orders", func() { neighbourOrders(r, thorough) })
 		r.Phase("first use in fresh processes", func() { firstUse(r, decodeFirstUseEntries([]int{3, 2}, []int{0, 1, 2})) })
 		r.Phase("map iteration orders", func() { mergeMapOrder(r) })
-		r.Set("exhaustive", true)
+		r.Set("exhaustive", r.Get("history_search_caps_hit") == 0)
 		r.Set("rule", "breadth-first search over operation sequences (queries: Score, Severity, GetError, Encode, String, BaseMetrics, TemporalMetrics, IsEmpty, report.New* en/ja, ExportWithString; single-field mutations; decodes of other colliding vectors on fresh objects) applied to live objects (decoded at every level and version, left behind by failed decodes, fresh, nil); state key = reflective dump of the live object + dump of every package-level variable of the six library packages (generated at check time from the current tree); successors by replay on a fresh object; invariants I1-I3 of DESIGN.md 5.3; plus all orders of processing 6 colliding vectors up to depth 3/4, plus every ordered pair (u, v) of the single-metric neighbours (every alternative value of every metric, and the other version) of background vectors: v processed after u must give what v gives first")
 		r.Assume("results are compared between histories (differential oracle) and with a pristine child process; nothing is assumed about what the right result is")
 		r.Assume("private (unexported) state may change as long as observables and results agree; such changes only add states")
